@@ -6,6 +6,9 @@
 //	                      long segment-crossing runs are decided by the Go twin of lin_b (+ the empty-answer rule)
 //	                      and, value-projected, by aspects_b inside Coq; CTwin cases compare twin and Coq checker
 //	                      on deliberately corrupted histories
+//	tiny concurrent    -> CLin: 2..4 goroutines, <= 12 calls: decided by the verified linearizability checker (Common/Hist.v
+//	                      lin_check for the FIFO specification) and cross-checked with aspects_b; CLinX: corrupted copies,
+//	                      only the agreement of the two deciders is checked
 //	constants          -> CConst: scqsize, entries per cache line and samples of cacheRemap16Byte
 package main
 
@@ -235,6 +238,7 @@ const (
 	aYield
 	aBarrier
 	aWaitProduced // spin until the global count of completed enqueues reaches v
+	aSpin         // tiny scripts in lockstep: spin until every party that has a v-th call arrived at it
 )
 
 // ---------- yield hooks (lscq.VerifYieldHook) ----------
@@ -273,8 +277,19 @@ type action struct {
 }
 
 // runScripts executes one script per goroutine against q, all stamped from one atomic counter, then drains.
+var (
+	spinStart   bool
+	spinArrived int32
+	spinCnt     [16]int32
+	spinNeed    [16]int32
+)
+
 func runScripts(q qapi, scripts [][]action, nbarriers int, drain bool, clock *int64) []ev {
 	T := len(scripts)
+	atomic.StoreInt32(&spinArrived, 0)
+	for i := range spinCnt {
+		atomic.StoreInt32(&spinCnt[i], 0)
+	}
 	atomic.StoreInt64(&produced, 0)
 	atomic.StoreInt64(&attempts, 0)
 	logs := make([][]ev, T)
@@ -292,6 +307,14 @@ func runScripts(q qapi, scripts [][]action, nbarriers int, drain bool, clock *in
 			lg := make([]ev, 0, len(scripts[t]))
 			nb := 0
 			start.Wait()
+			if spinStart { // tiny scripts: all parties leave a spin barrier together, otherwise the first one is done before the last one wakes up
+				atomic.AddInt32(&spinArrived, 1)
+				for k := 0; atomic.LoadInt32(&spinArrived) < int32(T); k++ {
+					if k%4096 == 4095 {
+						runtime.Gosched()
+					}
+				}
+			}
 			for _, a := range scripts[t] {
 				switch a.kind {
 				case aEnq:
@@ -315,6 +338,13 @@ func runScripts(q qapi, scripts [][]action, nbarriers int, drain bool, clock *in
 					bar[nb].Done()
 					bar[nb].Wait()
 					nb++
+				case aSpin:
+					atomic.AddInt32(&spinCnt[a.v], 1)
+					for k := 0; atomic.LoadInt32(&spinCnt[a.v]) < spinNeed[a.v] && k < 1<<22; k++ {
+						if k%4096 == 4095 {
+							runtime.Gosched()
+						}
+					}
 				case aWaitProduced:
 					for atomic.LoadInt64(&produced) < a.v {
 						runtime.Gosched()
@@ -425,6 +455,357 @@ func makeScripts(rng *vhlib.Rng, profile, P, C, per int, base int64) (scripts []
 		}
 	}
 	return
+}
+
+// tinyScripts: T goroutines share at most 12 calls (including the final drain when drain is set).
+func tinyScripts(rng *vhlib.Rng, T int) (scripts [][]action, drain bool) {
+	drain = rng.Chance(1, 3)
+	budget := rng.Range(T, 12)
+	maxEnq := 12
+	if drain { // the drain adds (values left)+1 calls: budget + maxEnq + 1 <= 12
+		budget = rng.Range(T, 7)
+		maxEnq = 11 - budget
+	}
+	scripts = make([][]action, T)
+	mode := rng.Intn(3) // 0 mixed, 1 producers and consumers, 2 dequeue-heavy (empty answers)
+	next, nenq := int64(0), 0
+	for k := 0; k < budget; k++ {
+		t := k
+		if k >= T {
+			t = rng.Intn(T)
+		}
+		isEnq := false
+		switch mode {
+		case 0:
+			isEnq = rng.Chance(1, 2)
+		case 1:
+			isEnq = t < (T+1)/2
+		default:
+			isEnq = rng.Chance(1, 3)
+		}
+		if isEnq && nenq < maxEnq {
+			next++
+			nenq++
+			scripts[t] = append(scripts[t], action{aEnq, next})
+		} else {
+			scripts[t] = append(scripts[t], action{aDeq, 0})
+		}
+		if rng.Chance(1, 4) {
+			scripts[t] = append(scripts[t], action{aYield, 0})
+		}
+	}
+	if rng.Chance(1, 2) { // lockstep: the j-th calls of all parties start together
+		for i := range spinNeed {
+			spinNeed[i] = 0
+		}
+		for t := range scripts {
+			var s []action
+			j := 0
+			for _, a := range scripts[t] {
+				if a.kind == aEnq || a.kind == aDeq {
+					s = append(s, action{aSpin, int64(j)})
+					spinNeed[j]++
+					j++
+				}
+				s = append(s, a)
+			}
+			scripts[t] = s
+		}
+	}
+	return
+}
+
+// corruptTiny: a copy of h with one deliberate defect; stamps stay non-negative and pairwise distinct, enqueued values unique.
+func corruptTiny(rng *vhlib.Rng, h0 []ev, m int) ([]ev, string) {
+	h := append([]ev(nil), h0...)
+	var deqs, enqs []int
+	maxs := int64(0)
+	for j, e := range h {
+		switch e.kind {
+		case 0:
+			enqs = append(enqs, j)
+		case 1:
+			deqs = append(deqs, j)
+		}
+		if e.resp > maxs {
+			maxs = e.resp
+		}
+	}
+	switch m {
+	case 0:
+		if len(deqs) < 1 {
+			return nil, ""
+		}
+		d := h[deqs[rng.Intn(len(deqs))]]
+		d.inv, d.resp = maxs+1, maxs+2
+		return append(h, d), "repeat"
+	case 1:
+		if len(deqs) < 1 {
+			return nil, ""
+		}
+		h[deqs[rng.Intn(len(deqs))]].v = 999999
+		return h, "fresh"
+	case 2:
+		if len(deqs) < 2 {
+			return nil, ""
+		}
+		a, b := deqs[rng.Intn(len(deqs))], deqs[rng.Intn(len(deqs))]
+		h[a].v, h[b].v = h[b].v, h[a].v
+		return h, "order"
+	case 3:
+		if len(deqs) < 1 {
+			return nil, ""
+		}
+		j := deqs[rng.Intn(len(deqs))]
+		h[j].kind, h[j].v = 2, 0
+		return h, "empty-answer"
+	case 4:
+		if len(enqs) < 2 {
+			return nil, ""
+		}
+		a, b := enqs[rng.Intn(len(enqs))], enqs[rng.Intn(len(enqs))]
+		h[a].inv, h[a].resp, h[b].inv, h[b].resp = h[b].inv, h[b].resp, h[a].inv, h[a].resp
+		return h, "enqueue-times-swapped"
+	default:
+		if len(enqs) < 1 {
+			return nil, ""
+		}
+		j := enqs[rng.Intn(len(enqs))]
+		return append(h[:j:j], h[j+1:]...), "enqueue-dropped"
+	}
+}
+
+// ---------- near-empty contention aimed at the empty-answer clause ----------
+//
+// Token discipline: a consumer calls Dequeue only after a producer published a token following a COMPLETED
+// Enqueue whose value has not been handed to a consumer yet, so every empty answer is wrong and the recorded
+// history violates EmptyJustified (the completed value is definitely inside during the whole call).
+
+var (
+	armStall int32 // 1: the next enqueuer reaching yield point 4 (tail ticket taken, slot not yet written) parks
+	stalled  int32 // 1: an enqueuer is parked at point 4
+	release  int32 // 1: the parked enqueuer may go on
+	jitterCt uint64
+)
+
+// parkHook parks ONE armed enqueuer between its tail fetch-add and its slot write until released (or 2 s).
+func parkHook(k int) {
+	if k == 4 && atomic.CompareAndSwapInt32(&armStall, 1, 0) {
+		atomic.StoreInt32(&stalled, 1)
+		limit := time.Now().Add(2 * time.Second)
+		for atomic.LoadInt32(&release) == 0 && time.Now().Before(limit) {
+			runtime.Gosched()
+		}
+	}
+}
+
+// jitterHook: about every second enqueuer dawdles between ticket and slot write, dequeuers sometimes after theirs.
+func jitterHook(k int) {
+	if k == 4 || k == 5 || k == 7 {
+		x := atomic.AddUint64(&jitterCt, 0x9E3779B97F4A7C15)
+		n := 0
+		if k == 4 && (x>>40)%2 == 0 {
+			n = int((x>>20)%12) + 1
+		} else if k != 4 && (x>>40)%5 == 0 {
+			n = 1
+		}
+		for i := 0; i < n; i++ {
+			runtime.Gosched()
+		}
+	}
+}
+
+// worker runs closures on its own goroutine (so that every party of a scripted round is a real goroutine)
+type worker struct {
+	cmd  chan func()
+	done chan struct{}
+}
+
+func newWorker() *worker {
+	w := &worker{cmd: make(chan func()), done: make(chan struct{})}
+	go func() {
+		for f := range w.cmd {
+			f()
+			w.done <- struct{}{}
+		}
+	}()
+	return w
+}
+func (w *worker) do(f func())    { w.cmd <- f; <-w.done }
+func (w *worker) start(f func()) { w.cmd <- f }
+func (w *worker) wait()          { <-w.done }
+func (w *worker) stop()          { close(w.cmd) }
+
+// scriptedNearEmpty: rounds of the three-party interleaving on a queue holding 0 or 1 elements:
+// enqueuer A takes a tail ticket and parks before writing its slot; enqueuer B completes the NEXT slot and
+// publishes its token; dequeuer C (and sometimes D) then dequeues: the ticket it lands on is A's unwritten slot,
+// B's completed value lies behind it. Returns the history and whether every round parked as intended.
+func scriptedNearEmpty(q qapi, rounds int, rng *vhlib.Rng, clock *int64) ([]ev, bool) {
+	var mu sync.Mutex
+	var h []ev
+	rec := func(e ev) { mu.Lock(); h = append(h, e); mu.Unlock() }
+	enq := func(who int, v int64) {
+		i := atomic.AddInt64(clock, 1)
+		q.Enq(v)
+		r := atomic.AddInt64(clock, 1)
+		rec(ev{i, r, who, 0, v})
+	}
+	deq := func(who int) bool {
+		i := atomic.AddInt64(clock, 1)
+		v, ok := q.Deq()
+		r := atomic.AddInt64(clock, 1)
+		if ok {
+			rec(ev{i, r, who, 1, v})
+		} else {
+			rec(ev{i, r, who, 2, 0})
+		}
+		return ok
+	}
+	A, B, C, D := newWorker(), newWorker(), newWorker(), newWorker()
+	defer func() { A.stop(); B.stop(); C.stop(); D.stop() }()
+	lscq.VerifYieldHook = parkHook
+	defer func() { lscq.VerifYieldHook = nil }()
+	next := int64(0)
+	inside := 0 // completed, not yet dequeued (as far as the tokens say)
+	allParked := true
+	for r := 0; r < rounds; r++ {
+		if inside == 0 && rng.Chance(1, 3) { // sometimes one older element is inside already
+			next++
+			v := next
+			B.do(func() { enq(2, v) })
+			inside++
+		}
+		atomic.StoreInt32(&stalled, 0)
+		atomic.StoreInt32(&release, 0)
+		atomic.StoreInt32(&armStall, 1)
+		next++
+		va := next
+		A.start(func() { enq(1, va) })
+		limit := time.Now().Add(time.Second)
+		for atomic.LoadInt32(&stalled) == 0 && time.Now().Before(limit) {
+			runtime.Gosched()
+		}
+		if atomic.LoadInt32(&stalled) == 0 {
+			allParked = false
+		}
+		nb := 1
+		if rng.Chance(1, 4) {
+			nb = 2
+		}
+		for i := 0; i < nb; i++ {
+			next++
+			v := next
+			B.do(func() { enq(2, v) }) // completes; its return is the token
+			inside++
+		}
+		// consumers hold one token each
+		if inside >= 2 && rng.Chance(1, 2) {
+			C.start(func() { deq(3) })
+			D.start(func() { deq(4) })
+			C.wait()
+			D.wait()
+			inside -= 2
+		} else {
+			n := 1
+			if inside >= 2 && rng.Chance(1, 2) {
+				n = 2
+			}
+			for i := 0; i < n; i++ {
+				C.do(func() { deq(3) })
+				inside--
+			}
+		}
+		atomic.StoreInt32(&release, 1)
+		A.wait()
+		inside++
+		// bring the queue back to 0 or 1 elements
+		for inside > 1 || (inside == 1 && rng.Chance(1, 2)) {
+			C.do(func() { deq(3) })
+			inside--
+		}
+	}
+	atomic.StoreInt32(&armStall, 0)
+	for { // final drain (an empty answer after every enqueue returned)
+		if !deq(0) {
+			break
+		}
+	}
+	sort.Slice(h, func(a, b int) bool { return h[a].inv < h[b].inv })
+	return h, allParked
+}
+
+// tokenNearEmpty: P producers and C consumers on a queue hovering between 0 and 2 elements, enqueuers dawdling
+// between ticket and slot write (jitterHook). A producer publishes a token after each completed Enqueue and waits
+// while 2 tokens are unclaimed; a consumer claims a token before each Dequeue.
+func tokenNearEmpty(q qapi, P, C, per int, clock *int64) []ev {
+	var tokens, claimed int64
+	total := int64(P * per)
+	logs := make([][]ev, P+C)
+	lscq.VerifYieldHook = jitterHook
+	defer func() { lscq.VerifYieldHook = nil }()
+	var wg sync.WaitGroup
+	var start sync.WaitGroup
+	start.Add(1)
+	for p := 0; p < P; p++ {
+		wg.Add(1)
+		go func(p int) {
+			defer wg.Done()
+			start.Wait()
+			for j := 0; j < per; j++ {
+				for atomic.LoadInt64(&tokens) >= 2 {
+					runtime.Gosched()
+				}
+				v := int64(p*per + j + 1)
+				i := atomic.AddInt64(clock, 1)
+				q.Enq(v)
+				r := atomic.AddInt64(clock, 1)
+				logs[p] = append(logs[p], ev{i, r, p + 1, 0, v})
+				atomic.AddInt64(&tokens, 1)
+			}
+		}(p)
+	}
+	for c := 0; c < C; c++ {
+		wg.Add(1)
+		go func(c int) {
+			defer wg.Done()
+			start.Wait()
+			for atomic.LoadInt64(&claimed) < total {
+				t := atomic.LoadInt64(&tokens)
+				if t <= 0 || !atomic.CompareAndSwapInt64(&tokens, t, t-1) {
+					runtime.Gosched()
+					continue
+				}
+				atomic.AddInt64(&claimed, 1)
+				i := atomic.AddInt64(clock, 1)
+				v, ok := q.Deq()
+				r := atomic.AddInt64(clock, 1)
+				if ok {
+					logs[P+c] = append(logs[P+c], ev{i, r, P + c + 1, 1, v})
+				} else {
+					logs[P+c] = append(logs[P+c], ev{i, r, P + c + 1, 2, 0})
+				}
+			}
+		}(c)
+	}
+	start.Done()
+	wg.Wait()
+	var h []ev
+	for _, l := range logs {
+		h = append(h, l...)
+	}
+	for {
+		i := atomic.AddInt64(clock, 1)
+		v, ok := q.Deq()
+		r := atomic.AddInt64(clock, 1)
+		if ok {
+			h = append(h, ev{i, r, 0, 1, v})
+		} else {
+			h = append(h, ev{i, r, 0, 2, 0})
+			break
+		}
+	}
+	sort.Slice(h, func(a, b int) bool { return h[a].inv < h[b].inv })
+	return h
 }
 
 // ---------- Go twin of Aspects.lin_b plus the empty-answer rule (same algorithms, same listing order) ----------
@@ -736,6 +1117,101 @@ func main() {
 		}
 	}
 
+	// ---- concurrent: near-empty contention (empty-answer clause), all three variants, aspects_b inside Coq ----
+	nne := 4 // per variant and kind
+	if th {
+		nne = 40
+	}
+	notParked, wrongEmpties := 0, 0
+	for variant := 0; variant < 3; variant++ {
+		for i := 0; i < nne; i++ {
+			q := newQ(variant, 400)
+			clock = 0
+			h, parked := scriptedNearEmpty(q, rng.Range(12, 28), rng, &clock)
+			if !parked {
+				notParked++
+			}
+			light = append(light, pending{fmt.Sprintf("CHist true true %s\n %s", vhlib.Bool(twin(h, true, true)), histStr(h)),
+				fmt.Sprintf("concurrent/%s/near-empty(parked enqueuer, tokens)", q.Name()), true, nil,
+				map[string]interface{}{"events": len(h), "every_round_parked": parked}})
+			P, C := rng.Range(2, 4), rng.Range(1, 3)
+			per := 90 / P
+			q = newQ(variant, P*per+5)
+			clock = 0
+			h = tokenNearEmpty(q, P, C, per, &clock)
+			for _, e := range h[:len(h)-1] {
+				if e.kind == 2 {
+					wrongEmpties++
+				}
+			}
+			light = append(light, pending{fmt.Sprintf("CHist true true %s\n %s", vhlib.Bool(twin(h, true, true)), histStr(h)),
+				fmt.Sprintf("concurrent/%s/near-empty(jitter, tokens)", q.Name()), true, nil,
+				map[string]interface{}{"P": P, "C": C, "per": per, "events": len(h)}})
+		}
+	}
+	w.Notes["near_empty_rounds_where_the_enqueuer_did_not_park"] = notParked
+	w.Notes["near_empty_empty_answers_under_token_discipline"] = wrongEmpties
+
+	// ---- concurrent: tiny contended histories (2..4 goroutines, <= 12 calls), decided by the verified linearizability
+	//      checker (Common/Hist.v lin_check for the FIFO specification) and cross-checked with aspects_b inside Coq ----
+	ntiny := 150
+	if th {
+		ntiny = 6000
+	}
+	var keepTiny [][]ev
+	tinyWarm := 0
+	for i := 0; i < ntiny; i++ {
+		variant := i % 3
+		T := rng.Range(2, 4)
+		scripts, drain := tinyScripts(rng, T)
+		q := newQ(variant, N+32)
+		warm := 0
+		if (i/3)%3 == 0 { // unrecorded sequential warm-up that leaves the queue empty: the recorded calls straddle the end of the first ring
+			warm = N - rng.Range(0, 5)
+			for v := 0; v < warm; v++ {
+				q.Enq(int64(20 + v%N))
+			}
+			for v := 0; v < warm; v++ {
+				if _, ok := q.Deq(); !ok {
+					w.Violation("concurrent/"+q.Name()+"/tiny(lin_check)/warm-up", "sequential warm-up lost a value", map[string]interface{}{"warm": warm, "at": v})
+					break
+				}
+			}
+			tinyWarm++
+		}
+		clock = 0
+		pert := ""
+		if i%2 == 1 {
+			lscq.VerifYieldHook = perturbHook
+			pert = "+yields"
+		}
+		spinStart = true
+		h := runScripts(q, scripts, 0, drain, &clock)
+		spinStart = false
+		lscq.VerifYieldHook = nil
+		label := fmt.Sprintf("concurrent/%s/tiny(lin_check)/T=%d%s", q.Name(), T, pert)
+		if warm > 0 {
+			label += "+ring-end"
+		}
+		light = append(light, pending{"CLin\n " + histStr(h), label, true, nil,
+			map[string]interface{}{"T": T, "events": len(h), "drain": drain, "warm": warm}})
+		if len(keepTiny) < 30 && len(h) >= 5 {
+			keepTiny = append(keepTiny, h)
+		}
+	}
+	w.Notes["tiny_histories_recorded_across_the_end_of_the_first_ring"] = tinyWarm
+	// corrupted copies of tiny histories: aspects_b against lin_check on histories that are (mostly) not linearizable
+	for i, h0 := range keepTiny {
+		for m := 0; m < 6; m++ {
+			h, name := corruptTiny(rng, h0, m)
+			if h == nil {
+				continue
+			}
+			light = append(light, pending{"CLinX\n " + histStr(h), "lin-selftest/" + name, true, nil,
+				map[string]interface{}{"source_history": i, "mutation": name}})
+		}
+	}
+
 	// ---- concurrent: medium histories (a few thousand events), lin_b inside Coq ----
 	nmed := 3
 	if th {
@@ -864,5 +1340,6 @@ func main() {
 	}
 	w.Close(o, "sequential: one case = one trace of Enqueue/Dequeue bursts on New[int64]/NewPointer/NewUint64 with results, cursor snapshots and slot probes, "+
 		"non-trivial when some Dequeue returned a value; concurrent: one case = one recorded history (P,C in 1..16, unique values, stamps from one atomic counter), "+
-		"non-trivial when >= 2 goroutines took part; distinct = distinct case text")
+		"non-trivial when >= 2 goroutines took part; tiny histories (2..4 goroutines, <= 12 calls, a third recorded across the end of the first ring) are decided by lin_check and aspects_b; "+
+		"distinct = distinct case text")
 }
